@@ -3,6 +3,7 @@ package sstream
 import (
 	"bytes"
 	"context"
+	"errors"
 	"io"
 	"net"
 	"os"
@@ -118,20 +119,40 @@ func (d *Dialer) NewStreamDialer() (netio.StreamDialer, netio.StreamDialerInfo) 
 	return d, netio.StreamDialerInfo{Name: "script", NativeInitialPayload: true}
 }
 
-// Source is the io.Reader given to ReadFrom: Read(b) returns min(len(b), rest of the current piece)
-// bytes, (0, nil) for an empty piece and (0, io.EOF) at the end.
-type Source struct{ Pieces [][]byte }
+// ErrSource is the "other error" a scripted source returns.
+var ErrSource = errors.New("scripted source error")
+
+// SrcItem is one result a scripted source wants to return: Data and, together with the last of it, Err
+// (nil, io.EOF — the iotest.DataErrReader style — or ErrSource).
+type SrcItem struct {
+	Data []byte
+	Err  error
+}
+
+// Source is the io.Reader given to ReadFrom (same semantics as Src.read of the model): a result longer
+// than the buffer is returned in several reads, the error comes with the last part; an item without data
+// and without error is a (0, nil) read; an exhausted script returns (0, io.EOF). Handed collects every
+// byte the source has handed over.
+type Source struct {
+	Items  []SrcItem
+	Handed []byte
+}
 
 func (s *Source) Read(b []byte) (int, error) {
-	if len(s.Pieces) == 0 {
+	if len(s.Items) == 0 {
 		return 0, io.EOF
 	}
-	n := copy(b, s.Pieces[0])
-	if n == len(s.Pieces[0]) {
-		s.Pieces = s.Pieces[1:]
-	} else {
-		s.Pieces[0] = s.Pieces[0][n:]
+	it := &s.Items[0]
+	if len(it.Data) <= len(b) {
+		n := copy(b, it.Data)
+		err := it.Err
+		s.Handed = append(s.Handed, it.Data...)
+		s.Items = s.Items[1:]
+		return n, err
 	}
+	n := copy(b, it.Data[:len(b)])
+	s.Handed = append(s.Handed, it.Data[:n]...)
+	it.Data = it.Data[n:]
 	return n, nil
 }
 
@@ -141,6 +162,37 @@ type Sink struct{ Writes [][]byte }
 func (s *Sink) Write(b []byte) (int, error) {
 	s.Writes = append(s.Writes, bytes.Clone(b))
 	return len(b), nil
+}
+
+// ErrSink is the error a scripted sink returns.
+var ErrSink = errors.New("scripted sink error")
+
+// SinkIt is one result of a scripted sink's Write: it takes min(Accept, len(p)) bytes; Err: together with
+// ErrSink. BadNil: it takes fewer bytes than offered and returns nil (breaks the io.Writer contract).
+type SinkIt struct {
+	Accept int  `json:"accept"`
+	Err    bool `json:"err,omitempty"`
+}
+
+// ScriptSink is the io.Writer given to WriteTo: scripted results, then it takes everything.
+type ScriptSink struct {
+	Script []SinkIt
+	Writes [][]byte
+}
+
+func (s *ScriptSink) Write(b []byte) (int, error) {
+	if len(s.Script) == 0 {
+		s.Writes = append(s.Writes, bytes.Clone(b))
+		return len(b), nil
+	}
+	it := s.Script[0]
+	s.Script = s.Script[1:]
+	n := min(it.Accept, len(b))
+	s.Writes = append(s.Writes, bytes.Clone(b[:n]))
+	if it.Err {
+		return n, ErrSink
+	}
+	return n, nil
 }
 
 // CutBy cuts d into pieces of the given sizes; the last piece takes the rest (same as Drv.cutBy).
